@@ -314,6 +314,12 @@ func (s *Scheme) runDKG(ctx context.Context, membership *membership, dkgProtocol
 		}
 
 		s.lock.Lock()
+		if ctx.Err() != nil {
+			// The key generation this callback belongs to has already returned: register nothing
+			s.lock.Unlock()
+			resultChan <- mpcResult{err: ctx.Err()}
+			return
+		}
 		_, rbcExisted := s.rbcInProgress[string(dkgTopicHash)]
 		s.rbcInProgress[string(dkgTopicHash)] = rbc.Receive
 		s.lock.Unlock()
@@ -489,7 +495,7 @@ func (s *Scheme) Sign(c context.Context, msgHash []byte, topic string) ([]byte, 
 
 		start2 := time.Now()
 
-		signingProtocol, err := s.prepareSigning(membership, partyIDs, topicHash, UIntsToUniversalIDs(signers))
+		signingProtocol, err := s.prepareSigning(ctx, membership, partyIDs, topicHash, UIntsToUniversalIDs(signers))
 		if err != nil {
 			s.Logger.Errorf("Failed initializing signing instance: %v", err)
 			resultChan <- struct {
@@ -552,8 +558,12 @@ func (s *Scheme) Sign(c context.Context, msgHash []byte, topic string) ([]byte, 
 		return nil, err
 	}
 
-	// However Sign returns (result, error, expired context), nothing of this session stays registered
-	defer cleanup()
+	// However Sign returns (result, error, expired context), nothing of this session stays registered.
+	// The context is cancelled first, so that a late synchroniser callback registers nothing afterwards.
+	defer func() {
+		cancel()
+		cleanup()
+	}()
 
 	go func() {
 		if err := sync.Synchronize(ctx, initializeSigningInstance, topicHash, s.Threshold+1, SyncInterval); err != nil {
@@ -609,7 +619,7 @@ func (s *Scheme) initializeSyncForSigning(topic string, topicHash []byte, member
 	return sync, nil
 }
 
-func (s *Scheme) prepareSigning(membership *membership, parties []PartyID, topicHash []byte, signers []UniversalID) (Signer, error) {
+func (s *Scheme) prepareSigning(ctx context.Context, membership *membership, parties []PartyID, topicHash []byte, signers []UniversalID) (Signer, error) {
 	signingProtocol, err := s.initializeThresholdSigning(membership, parties, topicHash, signers)
 	if err != nil {
 		return nil, err
@@ -633,6 +643,12 @@ func (s *Scheme) prepareSigning(membership *membership, parties []PartyID, topic
 	}
 
 	s.lock.Lock()
+
+	if ctx.Err() != nil {
+		// The Sign call this instance belongs to has already returned: register nothing
+		s.lock.Unlock()
+		return nil, ctx.Err()
+	}
 
 	_, rbcExisted := s.rbcInProgress[string(topicHash)]
 	s.rbcInProgress[string(topicHash)] = rbc.Receive
